@@ -156,6 +156,16 @@ theorem defTables_no_empty_kind (dims : List Dim) (d : MFADef) :
   have := (List.mem_filter.mp ht).2
   simpa using this
 
+/-! ## the source as the model reads it (regenerated on every run) -/
+
+/-- the exported dictionary has exactly the nine keys the model's record has, in this order, and the
+stock quantities written to CSV are stock, inflow, outflow -/
+theorem source_export_sites :
+    Gen.exportKeys = ["dimension_names", "dimension_items", "processes", "flows", "flow_dimensions",
+      "flow_processes", "stocks", "stock_dimensions", "stock_processes"] ∧
+    Gen.stockCsvAttributes = ["stock", "inflow", "outflow"] := by
+  decide
+
 /-! ## non-vacuity -/
 
 example : toValidFileName "Waste (mixed) -> Landfill!" = "waste_mixed___landfill" := by decide
